@@ -1,7 +1,7 @@
 #!/bin/bash
 # usage: tryseed.sh <patch.diff> <check-id> [extra check args]  -- apply a seeded change to /repo, run a check, undo.
 P=$1; ID=$2; shift 2
-cd /repo && git apply "$P" || { echo "patch does not apply"; exit 9; }
+cd /repo && { git apply "$P" 2>/dev/null || git apply -3 "$P"; } || { echo "patch does not apply"; git -C /repo reset -q --hard HEAD; exit 9; }
 cd /verif; ./check $ID "$@" 2>&1 | grep -v "^  File\|^    " | tail -8
 echo "exit=${PIPESTATUS[0]}"
-git -C /repo checkout -- .
+git -C /repo reset -q --hard HEAD
